@@ -14,6 +14,10 @@ BIG_M = 10 ** 6
 
 
 def _scalar_ok(got, ref, tol=1e-8):
+    # the library returns a python float when the imaginary part of a scalar is within numpy's isclose tolerance (1e-8, absolute) of zero:
+    # an imaginary part of that size (single-precision scalar factors leave ~5e-9) is compared on the real part only
+    if not isinstance(got, complex) and not np.iscomplexobj(got) and abs(np.imag(ref)) <= 1e-8:
+        ref = np.real(ref)
     return abs(got - ref) <= tol * max(abs(ref), abs(got), 1e-6)
 
 
